@@ -66,6 +66,8 @@ CLAIM = dict(
          'the modules generated by the constructors are proved (trivial_order_module, non_monic_order_module, singly_gen_module) and also checked by independent Fraction oracles on every explored input.',
     ref='DESIGN.md section 4, C15')
 
+PROFILES = ('debug', 'release')
+
 def fr(l): return [F(x) for x in l]
 def B_(M): return [Id('basis'), M]
 
@@ -202,6 +204,26 @@ def lattice_cases(rng, quick):
     for M, a in zip(pre, ans):
         if a.kind == 'ok':
             out.append(Case('ord_basis', line('ord_basis', B_(a.val)), oracle=o_same(a.val), nontrivial=len(M) >= 2, tag='basis:idempotent'))
+    # machine-word boundaries: pivots next to 2^31, 2^32, 2^63, 2^64 and, after a small unimodular change of basis, entries just
+    # below 2^64 in absolute value (a fixed-width fast path in the Euclid step or in the final reductions overflows exactly here);
+    # both build profiles; with and without a common denominator
+    for e in (31, 32, 63, 64):
+        for dd in (-1, 0, 11):
+            d = 2 ** e + dd
+            for den in (1, 6):
+                n = rng.choice([2, 3, 3])
+                B1 = [[F(0)] * n for _ in range(n)]
+                for i_ in range(n):
+                    B1[i_][i_] = F(d if i_ == 0 else rng.choice([1, 2, 3]), den)
+                    for j_ in range(i_): B1[i_][j_] = F(rng.randrange(0, 9), den)
+                U = [[F(int(i_ == j_)) for j_ in range(n)] for i_ in range(n)]
+                for uu in (-2, -1, 1, 2):
+                  U[1][0] = F(uu)
+                  for i_ in range(2, n): U[i_][0] = F(rng.choice([-2, -1, 1, 2]))
+                  B2 = mm(U, B1)
+                  for prof in ('debug', 'release'):
+                    out.append(Case('ord_eq', line('ord_eq', B_(B1), B_(B2)), oracle=o_eq(B1, B2), nontrivial=True, tag='eq:word-boundary', always_oracle=True, profile=prof))
+                    out.append(Case('ord_basis', line('ord_basis', B_(B2)), oracle=o_canon(B1), nontrivial=True, tag='basis:word-boundary', always_oracle=True, profile=prof))
     return out
 
 def order_cases(rng, quick):
